@@ -339,7 +339,7 @@ var c06LeafList = func() []c06Leaf {
 		l = append(l, c06Leaf{"D", n}, c06Leaf{"K", n}, c06Leaf{"A", n}, c06Leaf{"P", n})
 	}
 	l = append(l, c06Leaf{"DS", "甲"}) // 令甲 = 甲 + 1: reads the outer name, then shadows it
-	l = append(l, c06Leaf{"NF", ""}) // 以1（无此法）: a fault raised inside a built-in (native) call frame
+	l = append(l, c06Leaf{"NF", ""})  // 以1（无此法）: a fault raised inside a built-in (native) call frame
 	l = append(l, c06Leaf{"A", "参"}, c06Leaf{"P", "参"})
 	l = append(l, c06Leaf{"D", "真"}, c06Leaf{"A", "真"}, c06Leaf{"D", "显示"})
 	l = append(l, c06Leaf{"Y", "甲"})  // （取：n）得到甲
